@@ -2301,7 +2301,13 @@ def preprocess_file(
     def expand_func_macro(def_name: str, def_value: tuple[str, str]):
         def_args, sub = def_value
         def_args = def_args.split(",")
-        regex = re.compile(rf"\b{def_name}\s*\({','.join(['(.*)']*len(def_args))}\)")
+        # An argument ends at the first comma or closing parenthesis that is not
+        # inside parentheses of its own (nested up to three levels)
+        nested = r"[^()]"
+        for _ in range(3):
+            nested = rf"(?:[^()]|\({nested}*\))"
+        arg_pat = rf"((?:[^(),]|\({nested}*\))*)"
+        regex = re.compile(rf"\b{def_name}\s*\({','.join([arg_pat]*len(def_args))}\)")
         # The body becomes a replacement template: keep its backslashes literal
         sub = sub.replace("\\", "\\\\")
         for i, arg in enumerate(def_args, start=1):
